@@ -62,7 +62,7 @@ CFG = {
     },
     "thorough": {
         "pairs": dict(ActL=E(-2, -1, 0, .5, 1, 2), ActM=E(0, 1), ActT=E(-2, -1, -.5, 0, 1), ActA=E(-1, 0, 1),
-                      DeclL=E(-1, 0, 1, 2), DeclM=E(0, 1), DeclT=E(-2, -1, 0), DeclA=E(-1, 0, 1),
+                      DeclL=E(-1, 0, 1, 2), DeclM=E(0, 1), DeclT=E(-2, -1, 0), DeclA=E(0, 1),
                       Values={"one", "big", "tiny", "cplx", "zero", "inf", "nan"},
                       NumValues={"one", "neg", "f25", "big", "zero", "fzero", "inf", "finf", "ninf", "nan", "fnan"},
                       Prefixes={"base", "kilo", "milli"}, Shapes={"scalar"}, MaxSeq=0, TupleDecls=False,
